@@ -20,6 +20,12 @@ CHECKS = {
     'C03': ('symbolic execution of the real rate() over a symbolic rank/score vector (values z3 Real, kinds z3 Int tags), z3-decided path partition; per path comparison with the real code on canonical dense ranks',
             'Every path of rate() over ALL finite int/float/bool rank or score vectors of length 2-4 (5 single-kind in thorough): the result equals the result for the canonical dense int ranks of the path\'s weak order; scores == negated ranks; omitted == [0..n-1].',
             'Trusted: z3 (LRA/LIA), exactness of CPython comparisons between finite int/float/bool. NaN/inf ranks outside. Game values concrete.', '6/C03'),
+    'C14': ('symbolic execution of the real rate()/predict_* with write/inspection monitors + two-run z3 equality (history vs fresh model, original vs rebuilt ratings)',
+            'On every path of every call variant (per-call tau symbolic, limit_sigma in {None,True,False}) no model attribute is written, ids/names/hash are never consulted, and a call after an arbitrary earlier call returns the same terms as on a fresh model. Thread interleavings and hash seeds are not explored; only the non-interference premises are checked.',
+            TRUST + ' Interleavings/PYTHONHASHSEED themselves: outside (paper argument from the checked premises).', '6/C14'),
+    'C15': ('two-run symbolic execution of the real rate() in one path (sx engine) + z3 equality of result terms; sat models replayed on float code',
+            'For symbolic t >= 0 (the t == 0 fork included), symbolic model-level tau, all b, b0: rate with the per-call option returns the same terms as a model constructed with that option; omitted/None uses the model\'s own.',
+            TRUST, '6/C15'),
     'C07': ('bounded symbolic execution of the real rate() (sx engine) + z3 QF_NRA per path; sat models replayed on float code',
             'For every model, the listed team shapes and every weak order, z3 shows on every path of the real rate() that the '
             'precision-weighted mu change cannot differ from zero (TM: cannot exceed the tied-pair margin) for any mu, sigma, beta, tau, kappa in the domain.',
